@@ -22,7 +22,7 @@ pub struct Family {
     pub dups: bool,
 }
 
-fn families(tier: Tier, flavour_s: bool) -> Vec<Family> {
+fn families(tier: Tier, flavour_s: bool, prop: &str) -> Vec<Family> {
     let base = |n_min, n_max, full_upto| UniverseOpts {
         n_min,
         n_max,
@@ -34,6 +34,13 @@ fn families(tier: Tier, flavour_s: bool) -> Vec<Family> {
         merge_ranks: vec![MergeRank::Hash, MergeRank::Low, MergeRank::High],
     };
     let _ = flavour_s;
+    if prop == "C02" && tier == Tier::Quick {
+        // the structured spill families carry C02's quick tier; keep the generic part small
+        return vec![
+            Family { name: "n<=4 all histories", opts: UniverseOpts { merge_ranks: vec![MergeRank::Hash], ..base(1, 4, 4) }, bound: None, dups: false },
+            Family { name: "n=5 <=1 deviation", opts: UniverseOpts { merge_ranks: vec![MergeRank::Hash], ..base(5, 5, 5) }, bound: Some(1), dups: true },
+        ];
+    }
     match tier {
         Tier::Quick => vec![
             Family { name: "n<=4 all histories", opts: base(1, 4, 4), bound: None, dups: false },
@@ -141,8 +148,16 @@ pub fn run(args: &Args, prop: &str) {
         _ => unreachable!(),
     };
     let mut bounds = Vec::new();
+    if prop == "C02" {
+        let t0 = std::time::Instant::now();
+        bounds.extend(crate::props::spill::run_families(&mut rep, flavour_s, args.tier == Tier::Thorough));
+        rep.set("spill_families_wall_s", t0.elapsed().as_secs_f64());
+        rep.require_nonzero("runs_that_spilled");
+        rep.require_nonzero("spill_reads");
+    }
+    let skip_small = prop == "C02" && !flavour_s;
     let mut per_class: BTreeMap<String, u32> = BTreeMap::new();
-    for fam in families(args.tier, flavour_s) {
+    for fam in families(args.tier, flavour_s, prop).into_iter().filter(|_| !skip_small) {
         let mut dags = Vec::new();
         for_each_universe(&fam.opts, |d| dags.push(d.clone()));
         let accs: Vec<Acc> = dags.par_iter().map(|d| run_universe(d, &fam, oracles, convergence)).collect();
@@ -181,13 +196,15 @@ pub fn run(args: &Args, prop: &str) {
     rep.set("exhaustive", true);
     rep.set("families", mcx::Value::Array(bounds));
     rep.set("flavour", if flavour_s { "S" } else { "P" });
-    rep.require_nonzero("multi_head_commit_points");
-    rep.require_nonzero("merge_commands_ingested");
+    if !skip_small {
+        rep.require_nonzero("multi_head_commit_points");
+        rep.require_nonzero("merge_commands_ingested");
+    }
     rep.assume("the memory-backed linear storage provider (same LinearStorage code as the file backend, different IoManager)");
     rep.assume("AuditPolicy rules are check-then-write, so a braid-time rejection writes nothing");
     rep.finish()
 }
 
 thread_local! {
-    static STATES: std::cell::RefCell<std::collections::BTreeSet<u64>> = const { std::cell::RefCell::new(std::collections::BTreeSet::new()) };
+    pub static STATES: std::cell::RefCell<std::collections::BTreeSet<u64>> = const { std::cell::RefCell::new(std::collections::BTreeSet::new()) };
 }
